@@ -4,6 +4,7 @@ from __future__ import annotations
 import builtins
 import fractions
 import math
+import re
 import warnings
 
 import z3
@@ -535,7 +536,6 @@ def format_percent(interp, fmt, args):
     if not isinstance(args, tuple):
         args = (args,)
     # %d / %s of symbolic ints and strings keep their meaning
-    import re
     specs = re.findall(r"%(?:\((\w+)\))?([-+ #0]*\d*(?:\.\d+)?)([sdrfgeE%])", fmt)
     simple = all(flags == "" and conv in "sd%" and name == "" for name, flags, conv in specs)
     if simple and isinstance(args, tuple):
@@ -561,7 +561,36 @@ def format_percent(interp, fmt, args):
             out = z3.Concat(out, sa, z3.StringVal(lit))
         if ok:
             return wrap(z3.simplify(out))
+    m = re.fullmatch(r"%\.(\d+)([gf])", fmt)
+    if m and len(args) == 1 and isinstance(args[0], Sym) and args[0].kind in ("int", "real"):
+        # assumed contract 5.7: C99 formatting is a function of (precision, conversion, value)
+        F = z3.Function("fmt_%s" % m.group(2), z3.IntSort(), z3.RealSort(), z3.StringSort())
+        r = F(z3.IntVal(int(m.group(1))), to_z3(args[0], "real"))
+        dig = z3.Plus(z3.Range("0", "9"))
+        lit = lambda t: z3.Re(z3.StringVal(t))
+        gram = z3.Concat(z3.Option(lit("-")), dig, z3.Option(z3.Concat(lit("."), dig)))
+        if m.group(2) == "g":
+            gram = z3.Concat(gram, z3.Option(z3.Concat(lit("e"), z3.Union(lit("+"), lit("-")), z3.Range("0", "9"), dig)))
+        cur().assume(z3.InRe(r, gram))   # 5.7: the C99 output grammar of %g / %f for finite values
+        ie = z3.IndexOf(r, z3.StringVal("e"), 0)
+        cur().assume(z3.Implies(ie >= 0, z3.Not(z3.Contains(z3.SubString(r, ie + 1, z3.Length(r)), z3.StringVal("e")))))  # at most one 'e'
+        return Sym(r)
     return OpaqueStr("<formatted %r>" % fmt)
+
+
+def format_braces(interp, fmt, args, kwargs):
+    """str.format with plain '{}' fields only"""
+    if kwargs or "{" in fmt.replace("{}", "") or "}" in fmt.replace("{}", ""):
+        return OpaqueStr("<formatted %r>" % fmt)
+    lits = fmt.split("{}")
+    if len(lits) - 1 != len(args):
+        return OpaqueStr("<formatted %r>" % fmt)
+    parts = [z3.StringVal(lits[0])]
+    for a, lit in zip(args, lits[1:]):
+        sa = b_str(interp, a)
+        parts.append(z3.StringVal(sa) if isinstance(sa, str) else sa.e)
+        parts.append(z3.StringVal(lit))
+    return wrap(z3.simplify(z3.Concat(*parts))) if len(parts) > 1 else wrap(parts[0])
 
 
 class OpaqueStr(str):
@@ -643,12 +672,12 @@ def builtin_method(interp, slf, name, args, kwargs):
             if name in ("startswith", "endswith", "find"):
                 return getattr(s, name)(*args)
             if name == "format":
-                return OpaqueStr("<formatted %r>" % slf)
+                return format_braces(interp, slf, args, kwargs)
             if name == "__mod__":
                 return format_percent(interp, slf, args[0])
             raise Unsupported("str.%s with symbolic argument" % name)
         if name == "format" and (contains_sym(args) or contains_sym(kwargs)):
-            return OpaqueStr("<formatted %r>" % slf)
+            return format_braces(interp, slf, args, kwargs)
         return NOT_HANDLED
     return NOT_HANDLED
 
